@@ -112,9 +112,10 @@ def run_c13(rep, tier):
                               'unknown edges and an unknown node subset; solver proves equality with closure / flipped matrix / induced '
                               'subgraph, that the receiver is bit-for-bit unchanged, no exception; set objects not shared (identity walk)')
     ns = [2, 3, 4, 5] if tier == 'quick' else [2, 3, 4, 5, 6]
-    tasks = [(n, False, w) for n in ns for w in ('reach', 'reverse', 'subgraph', 'clone')]
+    # (raw reachability at n=6 does not finish within 30 min of z3 time: its bound stays 5; the loop-free operations go to 6)
+    tasks = [(n, False, w) for n in ns for w in ('reach', 'reverse', 'subgraph', 'clone') if not (w == 'reach' and n > 5)]
     tasks += [(3, True, w) for w in ('reach', 'reverse', 'subgraph', 'clone')]       # folded twin of the same obligations
-    rep.cov['bounds'].update(n_max=max(ns), loop_bound='get_reachable_set_from: n+1 iterations, remaining-iteration guard in the query')
+    rep.cov['bounds'].update(n_max='5 for reachability, %d for reverse/subgraph/clone' % max(ns), loop_bound='get_reachable_set_from: n iterations, remaining-iteration guard in the query')
     cov = 0
     for t, st, r, secs in pmap(graphs.reach_task, tasks):
         n, fold, w = t
